@@ -648,11 +648,12 @@ theorem rulesLoop_sameEv {seg : SegRec} {env : Env} (hseg : SegRecSameEv seg) (f
 /-! ### Every recorded event is a completed standalone evaluation -/
 
 /-- `e` is the event of a listed prerequisite `p` of a flag `f` (the root flag or a flag of the
-store), for the store's flag `pf` with key `p.key`, and its detail `d` is what `pf` evaluates to on
+store), for the flag `pf` the store returns for the lookup key `p.key` (whose own key `pf.key`,
+which the event carries, need not be `p.key`), and its detail `d` is what `pf` evaluates to on
 its own (empty chain, full fuel), which is a COMPLETED evaluation (`ok = true`). -/
 def EventOK (env : Env) (root : Flag) (e : Event) : Prop :=
   ∃ (f pf : Flag) (p : Prereq) (d : Detail),
-    (f = root ∨ f ∈ env.store.flags) ∧ p ∈ f.prerequisites ∧
+    (f = root ∨ f ∈ env.store.flags.map (·.2)) ∧ p ∈ f.prerequisites ∧
     env.store.findFlag p.key = some pf ∧ e = prereqEvent f pf d ∧
     Spec.evalFlag (segFuel env.store) (flagFuel env.store) env pf [] = some (d, true)
 
@@ -664,13 +665,13 @@ theorem EvsOK.of_events_eq {env : Env} {root : Flag} {a b : St} (h : EvsOK env r
 
 /-- What the invariant proof assumes about the open recursion. -/
 def FlagRecEv (env : Env) (root : Flag) (rec : FlagRec) : Prop :=
-  ∀ pf c st, pf ∈ env.store.flags → Consistent env st → EvsOK env root st →
+  ∀ pf c st, pf ∈ env.store.flags.map (·.2) → Consistent env st → EvsOK env root st →
     Consistent env (rec pf c st).2 ∧ EvsOK env root (rec pf c st).2 ∧
     ∀ d st2, rec pf c st = (.done d true, st2) →
       Spec.evalFlag (segFuel env.store) (flagFuel env.store) env pf [] = some (d, true)
 
 theorem prereqLoop_evsOK {rec : FlagRec} {env : Env} {root f : Flag} {chain : List String}
-    (hrec : FlagRecEv env root rec) (hf : f = root ∨ f ∈ env.store.flags) :
+    (hrec : FlagRecEv env root rec) (hf : f = root ∨ f ∈ env.store.flags.map (·.2)) :
     ∀ ps st, (∀ p ∈ ps, p ∈ f.prerequisites) → Consistent env st → EvsOK env root st →
       Consistent env (prereqLoop rec env f chain ps st).2 ∧
       EvsOK env root (prereqLoop rec env f chain ps st).2 := by
@@ -721,7 +722,7 @@ theorem prereqLoop_evsOK {rec : FlagRec} {env : Env} {root f : Flag} {chain : Li
 
 theorem evalBody_evsOK {rec : FlagRec} {seg : SegRec} {env : Env} {root f : Flag}
     {chain : List String} (hrec : FlagRecEv env root rec) (hseg : SegRecSameEv seg)
-    (hf : f = root ∨ f ∈ env.store.flags) (st : St) (hcons : Consistent env st)
+    (hf : f = root ∨ f ∈ env.store.flags.map (·.2)) (st : St) (hcons : Consistent env st)
     (hev : EvsOK env root st) : EvsOK env root (evalBody rec seg env f chain st).2 := by
   unfold evalBody
   split
@@ -758,7 +759,7 @@ theorem evalBody_evsOK {rec : FlagRec} {seg : SegRec} {env : Env} {root f : Flag
 
 /-- The invariant, for every fuel up to the one `evaluate` hands out. -/
 theorem evalFlag_evsOK (env : Env) (root : Flag) :
-    ∀ n, n ≤ flagFuel env.store → ∀ f chain st, (f = root ∨ f ∈ env.store.flags) →
+    ∀ n, n ≤ flagFuel env.store → ∀ f chain st, (f = root ∨ f ∈ env.store.flags.map (·.2)) →
       Consistent env st → EvsOK env root st →
       EvsOK env root (evalFlag (segFuel env.store) n env f chain st).2 := by
   intro n
